@@ -213,30 +213,7 @@ def judge_doc(ctx, doc, text):
     ctx.distinct(text)
 
 
-def use_the_rest_of_the_library(ctx):
-    """Normalisation is one step of a pipeline (normalise, import, validate, export): from here on every other module of the
-    package has been imported and used in this process, which must not change what normalize returns."""
-    import importlib
-    import pkgutil
-    import metapype
-    for m in pkgutil.walk_packages(metapype.__path__, "metapype."):
-        try:
-            importlib.import_module(m.name)
-            ctx.count("library_modules_imported")
-        except Exception:
-            ctx.count("library_modules_not_importable")
-    from metapype.eml import export, validate
-    from metapype.model import metapype_io
-    try:
-        t = metapype_io.from_xml('<eml:eml xmlns:eml="https://eml.ecoinformatics.org/eml-2.2.0" packageId="p" system="s"><dataset><title>t</title>'
-                                 '</dataset></eml:eml>')
-        validate.tree(t, [])
-        export.to_xml(t)
-        metapype_io.to_xml(t)
-        metapype_io.from_json(metapype_io.to_json(t))
-        emlkit.discard(t)
-    except Exception:
-        ctx.count("pipeline_steps_failed")
+from vlib.pipeline import use_the_rest_of_the_library  # noqa: E402
 
 
 def run(ctx, params):
